@@ -1,6 +1,6 @@
 (* statement pins and axiom audit for C11 (compiled on every check; regenerate BY HAND with driver/mkpins.py) *)
 From ChiaV.Base Require Import Bytes.
-From ChiaV.Clvm Require Import Ints Sexp IntsProofs LadderProofs WidthProofs.
+From ChiaV.Clvm Require Import Ints Sexp IntsProofs LadderProofs WidthProofs SignedProofs.
 From ChiaV.Gen Require Import Ladders.
 Open Scope N_scope.
 From ChiaV.Props Require Import C11.
@@ -56,3 +56,13 @@ Check C11_decode_number_unsigned :
   forall LEN v,
   v < 256 ^ N.of_nat LEN -> decode_number LEN false (canon_n v) = Some (n2be LEN v).
 Print Assumptions C11_decode_number_unsigned.
+Check C11_encode_number_signed :
+  forall LEN v,
+  (0 < LEN)%nat -> (- Z.of_N (256 ^ N.of_nat LEN / 2) <= v < Z.of_N (256 ^ N.of_nat LEN / 2))%Z ->
+  encode_number (be_fixed LEN v) (v <? 0)%Z = canon v.
+Print Assumptions C11_encode_number_signed.
+Check C11_decode_number_signed :
+  forall LEN v,
+  (0 < LEN)%nat -> (- Z.of_N (256 ^ N.of_nat LEN / 2) <= v < Z.of_N (256 ^ N.of_nat LEN / 2))%Z ->
+  decode_number LEN true (canon v) = Some (be_fixed LEN v).
+Print Assumptions C11_decode_number_signed.
